@@ -10,6 +10,9 @@ def run(rep: Report, repo: Repo, tier: str) -> None:
     protocol.rule_classstack(rep, repo, "C09-R1")
     bindings.rule_class_bindings(rep, repo, "C09-R2")
     render.rule_class_rendering(rep, repo, "C09-R3")
+    render.rule_member_independence(rep, repo, "C09-R3m")
+    from . import tables
+    tables.rule_settings_plain(rep, repo, "C09-R2s")
     if tier == "thorough":
         from . import trace_rules
         trace_rules.rule_class_traces(rep, repo, "C09-I")
